@@ -205,6 +205,38 @@ class CompToLoop(ast.NodeTransformer):
         return node
 
 
+class RenamePrivate(ast.NodeTransformer):
+    """consistently rename every private attribute / method / class attribute (single leading underscore) of the package"""
+
+    @staticmethod
+    def _priv(name: str) -> bool:
+        return name.startswith("_") and not name.startswith("__") and len(name) > 1
+
+    def visit_Attribute(self, node):
+        self.generic_visit(node)
+        if self._priv(node.attr):
+            node.attr = node.attr + "_x"
+        return node
+
+    def visit_FunctionDef(self, node):
+        self.generic_visit(node)
+        if self._priv(node.name) and isinstance(getattr(node, "_in_class", None), bool) and node._in_class:
+            node.name = node.name + "_x"
+        return node
+
+    def visit_ClassDef(self, node):
+        for st in node.body:
+            if isinstance(st, (ast.FunctionDef, ast.AsyncFunctionDef)):
+                st._in_class = True
+            # class-level private attributes:  _delimiter = ","
+            tg = st.targets if isinstance(st, ast.Assign) else [st.target] if isinstance(st, ast.AnnAssign) else []
+            for t in tg:
+                if isinstance(t, ast.Name) and self._priv(t.id):
+                    t.id = t.id + "_x"
+        self.generic_visit(node)
+        return node
+
+
 TRANSFORMS: Dict[str, Callable[[], ast.NodeTransformer]] = {
     "rename-locals": RenameLocals,
     "insert-pass": InsertNoise,
@@ -214,6 +246,7 @@ TRANSFORMS: Dict[str, Callable[[], ast.NodeTransformer]] = {
     "extract-return-temp": ExtractTemp,
     "while-true-break": WhileTrueBreak,
     "comprehension-to-loop": CompToLoop,
+    "rename-private": RenamePrivate,
 }
 
 
